@@ -319,7 +319,8 @@ def run(ctx):
     ctx.cov["distinct_nontrivial"] = len(set(r["proj"]["files"]["main.ms"] for r in results if r["status"] == "ran" and "modify" in r["proj"]["files"]["main.ms"]))
     ctx.cov["rule"] = ("closure programs: 1-3 owners (module-level variable with reader/writer/shadowing closures; factory returning a stepping closure that "
                        "shares a cell with a second closure, instantiated twice; depth-3 nesting with a modify from the innermost function), random histories of "
-                       "4-12 calls / owner assignments, closures passed as arguments; non-trivial = distinct program containing a modify")
+                       "4-12 calls / owner assignments, closures passed as arguments; non-trivial = distinct program containing a modify; plus (Python oracle) "
+                       "a captured variable in 21 positions of a function body x {module, factory, depth 3, method} and the statements that may follow a modify")
     ctx.cov["statistics"] = st
     ctx.cov["traces_validated_against_impl"] = st["t2_agree"]
     ctx.sample({"program": projs[0]["files"]["main.ms"][:900]})
